@@ -951,12 +951,14 @@ def explore(harness, cfg, caps, hname="?"):
                   ok = False; bad = (l1, str(sv)[:200], str(v2)[:200]); break
             if ok:
               stats.witnesses += 1
-              if len(stats.samples) < 3:
+              if len(stats.samples) < 3 or (ctx.claims and not stats.samples[-1].get("claims_discharged")):
                 stats.samples.append({"harness": hname, "cfg": _jsonable(cfg),
                                       "path_condition": ctx.describe_path(6),
                                       "witness": _jsonable({k: v for k, v in md.items()
                                                             if "!" not in k}),
                                       "claims_discharged": [c for c, _ in ctx.claims][:12],
+                                      "example_obligation": ("pc AND NOT (%s)  ->  unsat" % str(ctx.claims[-1][1]).replace("\n", " ")[:400])
+                                                            if ctx.claims else None,
                                       "verdict": "all obligations unsat; witness replayed natively"})
             else:
               stats.errors.append({"why": "witness mismatch between proxy run and native run",
